@@ -210,14 +210,39 @@ def main(argv=None):
             if has_native_gen(c.spec_module, c.name):
                 futs[ex.submit(_native_worker, c.spec_module, c.name, n_native, seed)] = ("n", c)
         futs[ex.submit(_custom_worker, prop, tier, seed)] = ("c", None)
+        redo = []
         for f in as_completed(futs):
             kind, c = futs[f]
+            try:
+                r_ = f.result()
+            except Exception:  # BrokenProcessPool: a worker died (e.g. killed for memory while other jobs ran)
+                redo.append((kind, c))
+                continue
             if kind == "v":
-                results[c.fq] = f.result()
+                results[c.fq] = r_
             elif kind == "n":
-                natives[c.fq] = f.result()
+                natives[c.fq] = r_
             else:
-                custom = f.result()
+                custom = r_
+    if redo:
+        # one more attempt, one task at a time, each in a fresh interpreter
+        for kind, c in redo:
+            with ProcessPoolExecutor(max_workers=1, max_tasks_per_child=1,
+                                     mp_context=multiprocessing.get_context("spawn")) as ex2:
+                try:
+                    if kind == "v":
+                        results[c.fq] = ex2.submit(_verify_worker, c.fq, timeout_ms, seed, 8).result()
+                    elif kind == "n":
+                        natives[c.fq] = ex2.submit(_native_worker, c.spec_module, c.name, n_native, seed).result()
+                    else:
+                        custom = ex2.submit(_custom_worker, prop, tier, seed).result()
+                except Exception as e:  # noqa
+                    if kind == "v":
+                        results[c.fq] = {"error": f"verification worker died twice: {e!r}", "obligations": []}
+                    elif kind == "n":
+                        natives[c.fq] = {"error": f"native worker died twice: {e!r}"}
+                    else:
+                        custom = {"error": f"custom worker died twice: {e!r}"}
 
     exit_code = 0
     lines = []
